@@ -56,6 +56,59 @@ func c20(c *Ctx) {
 			c20LogConfig(c, ix, m)
 		}
 	}
+	c.Rule("R8", "E3 must-pass (negative form)", "gRPC clients: the resolved headers become the outgoing metadata on every path of client construction that yields a client (also when the caller supplies the connection), excused only by an empty header map", 3)
+	for _, m := range otlpClients {
+		if m.kind != "grpc" {
+			continue
+		}
+		ix := c.Index(m.dir, m.pkg)
+		if ix == nil {
+			continue
+		}
+		info := ix.Pkg.TypesInfo
+		fn := c.Fn(ix, "R8", "newClient")
+		if fn == nil {
+			continue
+		}
+		g := ix.FG(fn)
+		var hdrText string
+		through := toSet(g.Match(func(n ast.Node) bool {
+			call, ok := n.(*ast.CallExpr)
+			if ok && isCallTo(info, call, "google.golang.org/grpc/metadata.New") && len(call.Args) == 1 {
+				hdrText = exprStr(call.Args[0])
+				return true
+			}
+			return false
+		}))
+		noHeaders := func(e *GEdge) bool {
+			return edgeImplies(e, func(cnd ast.Expr, pol int) bool {
+				l, op, r, ok := cmpNorm(cnd, pol)
+				if !ok {
+					return false
+				}
+				isLenH := func(x ast.Expr) bool {
+					call, ok := unparen(x).(*ast.CallExpr)
+					return ok && builtinName(info, call) == "len" && len(call.Args) == 1 && exprStr(call.Args[0]) == hdrText
+				}
+				if v, isC := constInt(info, r); isC && isLenH(l) {
+					return (op == token.LEQ && v == 0) || (op == token.EQL && v == 0) || (op == token.LSS && v == 1)
+				}
+				return false
+			})
+		}
+		// success returns: every return whose client result is not nil
+		bad := ""
+		seen, parent := g.ReachFromEntry(func(x *GNode) bool { return through[x] }, noHeaders)
+		for x := range seen {
+			rs, ok := x.N.(*ast.ReturnStmt)
+			if !ok || len(rs.Results) == 0 || isNilIdent(info, rs.Results[0]) {
+				continue
+			}
+			bad = g.pathLines(parent, x)
+		}
+		c.Check(len(through) > 0 && bad == "", "R8", short(m)+"|newClient|headers → metadata on every constructing path", at(ix.M, fn.Pos()), "metadata.New("+hdrText+") cut only by an empty map",
+			"a client is returned without the configured headers ("+bad+"): headers from options or OTEL_EXPORTER_OTLP_*_HEADERS are silently not sent on that path (e.g. with a caller-supplied connection)")
+	}
 	c20SDK(c)
 }
 
@@ -347,13 +400,12 @@ func c20LogConfig(c *Ctx, ix *PkgIndex, m otlpMod) {
 					return true
 				})
 			}
-			// after a successful conversion the loop is left (break / return)
-			stores := g.Match(func(n ast.Node) bool {
-				return assignRHS(n, func(e ast.Expr) bool { return fSet != nil && isField(info, e, fSet) }) != nil
-			})
-			leaves := len(stores) == 1
-			if leaves {
-				s, _ := g.Reach([]*GNode{stores[0]}, func(y *GNode) bool {
+			// after a successful conversion the loop is left (break / return); a value is produced either by storing
+			// s.Set = true or by returning newSetting(v) / a setting literal with Set: true
+			stores := g.Match(func(n ast.Node) bool { return producesSetting(ix, n, fSet) })
+			leaves := len(stores) >= 1
+			for _, st := range stores {
+				s, _ := g.Reach([]*GNode{st}, func(y *GNode) bool {
 					return y.N == nil && y.Blk != nil && (y.Blk.Kind.String() == "RangeDone")
 				}, nil)
 				for y := range s {
@@ -362,7 +414,7 @@ func c20LogConfig(c *Ctx, ix *PkgIndex, m otlpMod) {
 					}
 				}
 				// dominated by err == nil
-				d, _ := g.DominatedByEdges(stores[0], func(e *GEdge) bool {
+				d, _ := g.DominatedByEdges(st, func(e *GEdge) bool {
 					return edgeImplies(e, func(cnd ast.Expr, pol int) bool {
 						nn, ok := nilCmp(info, cnd, pol, func(x ast.Expr) bool { return isErrVar(info, x) })
 						return ok && !nn
@@ -383,13 +435,14 @@ func c20LogConfig(c *Ctx, ix *PkgIndex, m otlpMod) {
 			fVal := lookupField(ix.Pkg, "setting", "Value")
 			fSet := lookupField(ix.Pkg, "setting", "Set")
 			st := g.Match(func(n ast.Node) bool {
-				return assignRHS(n, func(e ast.Expr) bool { return isField(info, e, fVal) }) != nil
+				return assignRHS(n, func(e ast.Expr) bool { return isField(info, e, fVal) }) != nil || producesSetting(ix, n, fSet)
 			})
-			good := len(st) == 1
-			if good {
-				good, _ = g.DominatedByEdges(st[0], func(e *GEdge) bool {
+			good := len(st) >= 1
+			for _, x := range st {
+				d, _ := g.DominatedByEdges(x, func(e *GEdge) bool {
 					return edgeImplies(e, func(cnd ast.Expr, pol int) bool { return pol < 0 && isField(info, cnd, fSet) })
 				})
+				good = good && d
 			}
 			c.Check(good, "R1", sp+"|fallback|default only when nothing set the value", at(ix.M, f.Pos()), "Value ← default dominated by !s.Set", "the default overrides an explicitly configured value")
 		}
@@ -581,6 +634,9 @@ func c20SDK(c *Ctx) {
 										}
 									}
 									if v, isC := constInt(tinfo, r); isC && v >= 0 {
+										in["ok"] = true
+									}
+									if call, ok := r.(*ast.CallExpr); ok && nonNegativeCall(tx, call) {
 										in["ok"] = true
 									}
 									if call, ok := r.(*ast.CallExpr); ok && builtinName(tinfo, call) == "max" {
@@ -1043,4 +1099,129 @@ func c20EnvReaders(c *Ctx, ix *PkgIndex, names ...string) {
 		c.Check(len(calls) > 0 && len(okVars) > 0 && !seen[g.Exit], "R7", key, at(ix.M, fn.Pos()), itoa(len(calls))+" setter call(s) cut every present-and-parsed path",
 			"a present variable can leave the setting untouched ("+g.pathLines(parent, g.Exit)+"): the signal-specific variable cannot reset what the generic one set (e.g. TRACES_COMPRESSION=none after COMPRESSION=gzip)")
 	}
+}
+
+// nonNegativeCall: a call of a declared function of the package every return of which is known non-negative: a non-negative
+// constant, or a parameter that is either tested (p >= 0 / !(p < 0) dominates the return) or bound at this call site to a
+// non-negative constant.
+func nonNegativeCall(ix *PkgIndex, call *ast.CallExpr) bool {
+	info := ix.Pkg.TypesInfo
+	h := ix.declByObj(callee(info, call))
+	if h == nil || h.Body() == nil {
+		return false
+	}
+	sig := h.Obj.Type().(*types.Signature)
+	if sig.Results().Len() != 1 || sig.Params().Len() != len(call.Args) || sig.Variadic() {
+		return false
+	}
+	argNonNeg := map[types.Object]bool{}
+	for i, a := range call.Args {
+		if k := constObj(info, a); k != nil {
+			if v, isC := constant.Int64Val(constant.ToInt(k.Val())); isC && v >= 0 {
+				argNonNeg[sig.Params().At(i)] = true
+			}
+		}
+		if v, isC := constInt(info, a); isC && v >= 0 {
+			argNonNeg[sig.Params().At(i)] = true
+		}
+	}
+	// parameters must not be re-assigned
+	assigned := false
+	inspectNoLit(h.Body(), func(n ast.Node) bool {
+		if as, ok := n.(*ast.AssignStmt); ok {
+			for _, l := range as.Lhs {
+				for i := 0; i < sig.Params().Len(); i++ {
+					if sameVar(info, l, sig.Params().At(i)) {
+						assigned = true
+					}
+				}
+			}
+		}
+		return true
+	})
+	if assigned {
+		return false
+	}
+	g := ix.FG(h)
+	n := 0
+	for _, x := range g.Nodes {
+		rs, ok := x.N.(*ast.ReturnStmt)
+		if !ok {
+			continue
+		}
+		n++
+		if len(rs.Results) != 1 {
+			return false
+		}
+		r := unparen(rs.Results[0])
+		if v, isC := constInt(info, r); isC {
+			if v < 0 {
+				return false
+			}
+			continue
+		}
+		p, _ := objOf(info, r).(*types.Var)
+		if p == nil {
+			return false
+		}
+		if argNonNeg[p] {
+			continue
+		}
+		tested, _ := g.DominatedByEdges(x, func(e *GEdge) bool {
+			return edgeImplies(e, func(cnd ast.Expr, pol int) bool {
+				l, op, rr, ok := cmpNorm(cnd, pol)
+				k, isC := constInt(info, rr)
+				return ok && sameVar(info, l, p) && isC && ((op == token.GEQ && k >= 0) || (op == token.GTR && k >= -1))
+			})
+		})
+		if !tested {
+			return false
+		}
+	}
+	return n > 0
+}
+
+// producesSetting: the node makes "a value is set": s.Set = true, or return of newSetting(…) / of a setting literal with Set: true.
+func producesSetting(ix *PkgIndex, n ast.Node, fSet *types.Var) bool {
+	info := ix.Pkg.TypesInfo
+	if fSet == nil {
+		return false
+	}
+	if r := assignRHS(n, func(e ast.Expr) bool { return isField(info, e, fSet) }); r != nil {
+		tv := info.Types[r]
+		return tv.Value != nil && tv.Value.Kind() == constant.Bool && constant.BoolVal(tv.Value)
+	}
+	rs, ok := n.(*ast.ReturnStmt)
+	if !ok || len(rs.Results) != 1 {
+		return false
+	}
+	isSetLit := func(e ast.Expr) bool {
+		v := compositeField(info, e, fSet)
+		if v == nil {
+			return false
+		}
+		tv := info.Types[v]
+		return tv.Value != nil && tv.Value.Kind() == constant.Bool && constant.BoolVal(tv.Value)
+	}
+	r := unparen(rs.Results[0])
+	if isSetLit(r) {
+		return true
+	}
+	if call, ok := r.(*ast.CallExpr); ok {
+		if h := ix.declByObj(callee(info, call)); h != nil {
+			// every return of the helper is a setting literal with Set: true
+			n, good := 0, true
+			inspectNoLit(h.Body(), func(m ast.Node) bool {
+				if hr, ok := m.(*ast.ReturnStmt); ok {
+					n++
+					if len(hr.Results) != 1 || !isSetLit(hr.Results[0]) {
+						good = false
+					}
+				}
+				return true
+			})
+			return n > 0 && good
+		}
+	}
+	return false
 }
